@@ -56,6 +56,18 @@ Judge(c, hist, S) ==
      /\ \A p \in bad : PrintT(<<"FAIL", c.scn, p, IF c.fam = "enginepanic" THEN res[p] \cap {"retXor", "nonEmpty"} ELSE res[p]>>)
      /\ (c.hasexp /\ c.exp # hist) => PrintT(<<"DRIFT", c.scn>>)
 
+\* a run of tens of thousands of rounds of one body (a nested flow around one node, repeated by its parent until the node
+\* says "done"): the harness counts the callbacks instead of keeping them.  The table determines the path whatever its
+\* length: every round is one prep, one exec, one post of the node, in that order, on the run's store, and the run ends
+\* with the node's last action and no error.
+JudgeLong(c) ==
+  LET L == SelectSeq(c.h, LAMBDA e : e.ev = "longrun")
+      R == SelectSeq(c.h, LAMBDA e : e.ev = "runret")
+      bad == (IF Len(L) = 1 /\ L[1].preps = L[1].rounds /\ L[1].execs = L[1].rounds /\ L[1].posts = L[1].rounds /\ L[1].fbs = 0
+                 /\ L[1].inorder /\ L[1].sok THEN {} ELSE {"longRunFollowsTable"})
+             \cup (IF Len(R) = 1 /\ ~R[1].iserr /\ R[1].act = 3 THEN {} ELSE {"longRunEnds"})
+  IN \A p \in {q \in {"C01", "C03", "C04", "C10"} : Want(q) /\ bad # {}} : PrintT(<<"FAIL", c.scn, p, bad>>)
+
 HitKeys == {"retried", "fallback", "failedRun", "cancelled", "multiNode", "nested", "emptyAct", "eres", "funcNode"}
 
 Init == /\ i = 1
@@ -66,7 +78,11 @@ Next ==
   /\ i' = i + 1
   \* TLC does not cache LET definitions while it evaluates an action: binding the digest with a
   \* quantifier over a singleton set makes it a value that is computed once
-  /\ \E c \in {Trace[i]} : \E S \in {P!Segs(c.h)} : \E x \in {P!EngineHits(c.cfg, S)} :
+  /\ \E c \in {Trace[i]} :
+      IF c.fam = "enginelong"
+      THEN /\ JudgeLong(c)
+           /\ stats' = [stats EXCEPT !.scenarios = @ + 1, !.events = @ + Len(c.h)]
+      ELSE \E S \in {P!Segs(c.h)} : \E x \in {P!EngineHits(c.cfg, S)} :
         /\ Judge(c, c.h, S)
         /\ stats' = [scenarios |-> stats.scenarios + 1, events |-> stats.events + Len(c.h),
                      hits |-> [k \in HitKeys |-> stats.hits[k] + (IF x[k] THEN 1 ELSE 0)]]
